@@ -1,0 +1,19 @@
+//go:build verif
+
+package authgrants
+
+import "hop.computer/hop/keys"
+
+// VerifSnapshot returns a copy of the grant map (verification harness only).
+func (m *AuthgrantMapSync) VerifSnapshot() map[string]map[keys.DHPublicKey][]Authgrant {
+	m.agLock.Lock()
+	defer m.agLock.Unlock()
+	out := make(map[string]map[keys.DHPublicKey][]Authgrant, len(m.agMap))
+	for u, byKey := range m.agMap {
+		out[u] = make(map[keys.DHPublicKey][]Authgrant, len(byKey))
+		for k, ags := range byKey {
+			out[u][k] = append([]Authgrant(nil), ags...)
+		}
+	}
+	return out
+}
